@@ -1165,7 +1165,12 @@ def transform(fn, proceed, to_instrument=True, set_conformer=True):
     if to_instrument is True:
         to_instrument = [_GENERIC]
 
-    src = dedent(inspect.getsource(fn))
+    try:
+        src = dedent(inspect.getsource(fn))
+    except (OSError, TypeError) as exc:
+        raise TypeError(
+            f"transform() needs the source code of {fn}, which is not available"
+        ) from exc
 
     # Scrape the comments in the function's source and map them to lines.
     comments = {}
@@ -1184,7 +1189,11 @@ def transform(fn, proceed, to_instrument=True, set_conformer=True):
     filename = inspect.getsourcefile(fn)
     tree = ast.parse(src, filename)
     tree = tree.body[0]
-    assert isinstance(tree, ast.FunctionDef)
+    if not isinstance(tree, ast.FunctionDef):
+        raise TypeError(
+            "transform() only works on functions defined by a plain def"
+            f" statement (got {fn})"
+        )
     tree.decorator_list = []
 
     fnsym = _gensym()
